@@ -995,11 +995,15 @@ def r_ioerr(ctx):
     results = run_analyses(ctx, ENTRY_JOBS)
     n = _extra(results[(NEXT_KEY, None)], rep, "IOERR", "IOERR", 1)
     fns = {e["fn"].split("::")[-1] for e in results[(NEXT_KEY, None)]["extra"] if e["kind"] == "IOERR"}
-    need = {"private_read", "ensure_data_read", "read_tag_checked", "read_next"}
-    if not need <= fns:
+    # the path is observed from the function that calls read() itself (whatever it is called) up to read_next
+    readers = {b.name for b in ctx.prog.bodies.values() if b.promoted_index is None and b.kind != "closure" and b.path.startswith(ITER + "::")
+               and b.calls_to("std::io::Read::read")}
+    need = readers | {"read_next"}
+    if not readers or not need <= fns:
         raise AnchorLost("R-IOERR: the failing-read path was not observed in %s" % sorted(need - fns))
     # the error value itself is carried: ReadError { source } is built from the io::Error by map_err in private_read
-    pr = find_one(ctx.prog, "TagIterator::private_read")
+    pr = next(b for b in sorted(ctx.prog.bodies.values(), key=lambda b: b.key) if b.promoted_index is None and b.kind != "closure"
+              and b.path.startswith(ITER + "::") and b.calls_to("std::io::Read::read"))
     clos = ctx.prog.closures_of(pr.path)
     ok = False
     from rules.writer import local_sources
@@ -1017,8 +1021,8 @@ def r_ioerr(ctx):
                 else:
                     # built in place: from the Err payload of the read() result
                     ok = ok or ("call:std::io::Read::read" in local_sources(pr, op["place"]["local"]))
-    rep.instance("private_read: ReadError { source } built from the closure argument: %s" % ok)
-    rep.oblige(ok, "IOERR|private_read|source-carried", pr.span, "the ReadError built in private_read does not carry the io::Error it was given")
+    rep.instance("%s: ReadError { source } built from the closure argument: %s" % (pr.name, ok))
+    rep.oblige(ok, "IOERR|reader|source-carried", pr.span, "the ReadError built in %s does not carry the io::Error it was given" % pr.name)
     return rep
 
 
